@@ -96,7 +96,9 @@ Section Curvature.
   Definition tria_frame (p0 p1 p2 : vec3 K) (tumin : vec3 K) : vec3 K * vec3 K :=
     let tn0 := cross o (vsub o p1 p0) (vsub o p2 p0) in
     let tn := vdivs o tn0 (maxK o (norm o tn0) tiny8) in
-    let w := vsub o tumin (vscale o (dot o tn tumin) tn) in
+    let w0 := vsub o tumin (vscale o (dot o tn tumin) tn) in
+    (* no component in the plane: fall back to the first edge *)
+    let w := if ltb o (norm o w0) tiny8 then vsub o p1 p0 else w0 in
     let u := vdivs o w (maxK o (norm o w) tiny8) in
     (u, cross o tn u).
   Definition curvature_tria (v : V) (ts : list tri) (cs : list curv1) : list (vec3 K * vec3 K * K * K) :=
